@@ -29,6 +29,7 @@ package dns
 //@   writes b
 //@ extern (encoding/binary.bigEndian).PutUint64
 //@   requires len(b) >= 8
+//@   ensures b[0] == v / 72057594037927936 && b[1] == (v / 281474976710656) % 256 && b[2] == (v / 1099511627776) % 256 && b[3] == (v / 4294967296) % 256 && b[4] == (v / 16777216) % 256 && b[5] == (v / 65536) % 256 && b[6] == (v / 256) % 256 && b[7] == v % 256
 //@   ensures onlywrites(b, 0, 8)
 //@   writes b
 
@@ -101,4 +102,24 @@ package dns
 //@   pure
 //@ extern encoding/hex.DecodeString
 //@   ensures ret1 == nil ==> len(ret0) == len(s) / 2
+//@   fresh
+
+// net: only length facts.
+//@ extern net.CIDRMask
+//@   ensures 0 <= ones && ones <= bits && (bits == 32 || bits == 128) ==> len(ret0) == bits / 8
+//@   pure
+//@   fresh
+//@ extern (net.IP).Mask
+//@   ensures len(mask) == len(ip) ==> len(ret0) == len(ip)
+//@   pure
+//@   fresh
+//@ extern (net.IP).To4
+//@   ensures ret0 == nil || len(ret0) == 4
+//@   pure
+//@ extern (net.IP).To16
+//@   ensures ret0 == nil || len(ret0) == 16
+//@   pure
+//@ extern net.IPv4
+//@   ensures len(ret0) == 16
+//@   pure
 //@   fresh
